@@ -298,6 +298,7 @@ def run(prog, ctx):
         o8(prog, ctx)
         o8b(prog, ctx)
         o9(prog, ctx)
+        o10(prog, ctx)
         ok, cut = rcfg.all_paths_cut(rcfg.block_of(jc[0]), lambda lit, b, i: lit is not None and lit.atom.endswith("->join_same_entries") and lit.pol)
         if ok and cut:
             ctx.ok("O6", "join_same_entries() runs only under the option", jc[0].where, "behind `ef->join_same_entries`")
@@ -406,6 +407,16 @@ def o7c(prog, ctx):
                  "concatenating its later definitions" % (u.access if u.via is None else "%s (= %s)" % (u.via, u.access), u.sink), key="join-null:%s" % u.key)
     else:
         ctx.ok("O7", "the join pass handles definitions without a value", jf.where, "%d uses of nullable fields, all behind a NULL test" % len(uses))
+
+
+def o10(prog, ctx):
+    """O10: with JOIN_SAME_ENTRIES the joined text is kept in the FIRST entry of a key (the later ones stay behind it), and without
+    it the first definition is the visible one: both hold only while look-ups return the first entry with that section and key,
+    independently of earlier look-ups (= C11.A4)."""
+    from rules import common as _common
+    from rules import C11 as _C11
+    _common.import_obligations(ctx, prog, [_C11.a4, _C11.a4_no_entry_passed_over], "O10", "look-ups find the entry that holds the joined value: ",
+                               what="lookup of the entry")
 
 
 def o9(prog, ctx):
